@@ -134,4 +134,96 @@ def WellSized (o : Owned) : Prop :=
   optLt o.xPlacement 65536 ∧ optLt o.yPlacement 65536 ∧ optLt o.xAdvance 65536 ∧ optLt o.yAdvance 65536
     ∧ devOk o.xPlaDev ∧ devOk o.yPlaDev ∧ devOk o.xAdvDev ∧ devOk o.yAdvDev
 
+/-! ## arrays of value records and the SinglePos subtables (generated code around the hand-written record)
+
+write-fonts/generated/generated_gpos.rs `impl FontWrite for SinglePosFormat1/2` (`(1 as u16)`, `coverage`,
+`self.compute_value_format()`, `value_record` / `u16::try_from(array_len(&self.value_records)).unwrap()`, `value_records`),
+write-fonts/src/tables/gpos.rs `compute_value_format` (format 2: the FIRST record's format, empty if none);
+read-fonts/generated/generated_gpos.rs `SinglePosFormat1/2::read` (`value_records_byte_len = value_count *
+ValueRecord::compute_size(&value_format)`), read-fonts/src/array.rs `ComputedArray::new` (`len = data.len()
+.checked_div(item_len).unwrap_or(0)`) and its element getter. -/
+
+def writeMany (rs : List Owned) : Bytes := rs.flatMap write
+
+/-- `n` consecutive records of one format -/
+def readMany (fmt : Nat) : Nat → Bytes → Option (List Parsed × Bytes)
+  | 0, bs => some ([], bs)
+  | n + 1, bs =>
+    match read fmt bs with
+    | some (p, rest) =>
+      match readMany fmt n rest with
+      | some (ps, r) => some (p :: ps, r)
+      | none => none
+    | none => none
+
+/-- `ComputedArray<ValueRecord>` over the `count * item_len` bytes that follow -/
+def readComputed (fmt count : Nat) (bs : Bytes) : Option (List Parsed × Bytes) :=
+  let item := encodedSize fmt
+  let total := count * item
+  if bs.length < total then none
+  else
+    let n := if item = 0 then 0 else total / item
+    match readMany fmt n (bs.take total) with
+    | some (ps, _) => some (ps, bs.drop total)
+    | none => none
+
+def readU16 (bs : Bytes) : Option (Nat × Bytes) :=
+  if bs.length < 2 then none else some (beVal (bs.take 2), bs.drop 2)
+
+structure SinglePos1 where
+  coverageOffset : Nat
+  record : Owned
+
+def writeSP1 (t : SinglePos1) : Bytes :=
+  be 2 1 ++ be 2 t.coverageOffset ++ be 2 (format t.record) ++ write t.record
+
+/-- (pos_format, coverage_offset, value_record, rest) -/
+def readSP1 (bs : Bytes) : Option (Nat × Nat × Parsed × Bytes) :=
+  match readU16 bs with
+  | some (pf, b1) =>
+    match readU16 b1 with
+    | some (cov, b2) =>
+      match readU16 b2 with
+      | some (vf, b3) =>
+        match read vf b3 with
+        | some (p, rest) => some (pf, cov, p, rest)
+        | none => none
+      | none => none
+    | none => none
+  | none => none
+
+structure SinglePos2 where
+  coverageOffset : Nat
+  records : List Owned
+
+/-- `SinglePosFormat2::compute_value_format` -/
+def valueFormat2 (t : SinglePos2) : Nat :=
+  match t.records with
+  | [] => 0
+  | r :: _ => format r
+
+/-- `none` = the `u16::try_from(..).unwrap()` panic -/
+def writeSP2 (t : SinglePos2) : Option Bytes :=
+  if t.records.length < 65536 then
+    some (be 2 2 ++ be 2 t.coverageOffset ++ be 2 (valueFormat2 t) ++ be 2 t.records.length ++ writeMany t.records)
+  else none
+
+/-- (pos_format, coverage_offset, value_format, value_count, value_records, rest) -/
+def readSP2 (bs : Bytes) : Option (Nat × Nat × Nat × Nat × List Parsed × Bytes) :=
+  match readU16 bs with
+  | some (pf, b1) =>
+    match readU16 b1 with
+    | some (cov, b2) =>
+      match readU16 b2 with
+      | some (vf, b3) =>
+        match readU16 b3 with
+        | some (cnt, b4) =>
+          match readComputed vf cnt b4 with
+          | some (ps, rest) => some (pf, cov, vf, cnt, ps, rest)
+          | none => none
+        | none => none
+      | none => none
+    | none => none
+  | none => none
+
 end FontVerif.ValueRecord
